@@ -178,6 +178,13 @@ twin!(#[fastrace::trace()] async fn amacro_p / amacro_t (a: u32, y: u32) -> Vec<
 twin!(#[fastrace::trace()] async fn aassert_p / aassert_t (a: u32, y: u32) -> u32 { here!(); assert!({ YieldN(y).await; a < 10 }, "never"); log(format!("{}", { YieldN(1).await; a })); a });
 twin!(#[fastrace::trace()] async fn anested_p / anested_t (a: u32, y: u32) -> u32 { here!(); let x = avalue_t(a, y).await; x + value_t(a) });
 
+// hand-written functions that return a boxed future (the shape the async-trait detection looks for)
+type BoxFut<T> = Pin<Box<dyn Future<Output = T>>>;
+twin!(#[fastrace::trace()] fn boxed_nomove_p / boxed_nomove_t (a: u32, y: u32) -> BoxFut<u32> { here!(); log(format!("setup:{a}:{y}")); let _d = Droppy("setup-local"); Box::pin(async { log("fut"); YieldN(1).await; 7 }) });
+twin!(#[fastrace::trace()] fn boxed_move_p / boxed_move_t (a: u32, y: u32) -> BoxFut<u32> { here!(); log(format!("setup:{a}")); Box::pin(async move { log("fut"); YieldN(y).await; a + 7 }) });
+twin!(#[fastrace::trace(name = "boxed-only")] fn boxed_only_p / boxed_only_t (a: u32, y: u32) -> BoxFut<u32> { Box::pin(async move { log("fut-only"); YieldN(y).await; a * 2 }) });
+twin!(#[fastrace::trace(short_name = true)] fn boxed_ready_p / boxed_ready_t (a: u32, y: u32) -> BoxFut<u32> { here!(); let v = a + y; log("before-ready"); Box::pin(std::future::ready(v)) });
+
 #[async_trait::async_trait]
 trait Tr {
     async fn at_p(&self, a: u32, y: u32) -> u32;
@@ -499,6 +506,13 @@ fn cases() -> Vec<Case> {
             (s.at_eop_t(a, y).await, s.v)
         }
     );
+    // a plain function records its span when it returns, whatever becomes of the value it returned
+    sync_case!(c, "boxed_nomove_leaked", None, no_props, |a| std::mem::forget(boxed_nomove_p(a, 1)), std::mem::forget(boxed_nomove_t(a, 1)));
+    sync_case!(c, "boxed_ready_leaked", Some("boxed_ready_t"), no_props, |a| std::mem::forget(boxed_ready_p(a, 1)), std::mem::forget(boxed_ready_t(a, 1)));
+    async_case!(c, "boxed_nomove", None, no_props, false, |a, y| boxed_nomove_p(a, y), boxed_nomove_t(a, y));
+    async_case!(c, "boxed_move", None, no_props, false, |a, y| boxed_move_p(a, y), boxed_move_t(a, y));
+    async_case!(c, "boxed_only", Some("boxed-only"), no_props, false, |a, y| boxed_only_p(a, y), boxed_only_t(a, y));
+    async_case!(c, "boxed_ready", Some("boxed_ready_t"), no_props, false, |a, y| boxed_ready_p(a, y), boxed_ready_t(a, y));
     async_case!(c, "native_async_trait", Some("nat_t"), no_props, false, |a, y| async move { S { v: 3 }.nat_p(a, y).await }, async move { S { v: 3 }.nat_t(a, y).await });
     c
 }
@@ -537,7 +551,8 @@ fn check_all(out: &mut Out) {
     for c in cases() {
         for (with_parent, in_local, per_poll) in [(true, false, false), (true, true, false), (false, false, false), (true, false, true)] {
             // a scope that only exists during each poll makes sense for the async twins
-            if per_poll && !c.is_async {
+            // (and not for plain functions that hand out a boxed future: those are called before the first poll)
+            if per_poll && (!c.is_async || c.id.starts_with("boxed")) {
                 continue;
             }
             out.evaluations += 1;
@@ -586,7 +601,7 @@ fn check_all(out: &mut Out) {
                     out.violation(&c.id, "span-properties", format!("{ctx}: recorded {props:?}, expected {:?}", c.props));
                 }
             }
-            if c.is_async && c.name.is_none() && !want_name.ends_with("::{{closure}}") && !want_name.is_empty() {
+            if c.is_async && !c.id.starts_with("boxed") && c.name.is_none() && !want_name.ends_with("::{{closure}}") && !want_name.is_empty() {
                 out.violation(&c.id, "async-default-name", format!("{ctx}: func_path!() in the body is {want_name:?}"));
             }
         }
@@ -635,7 +650,7 @@ fn main() {
         "coverage": {
             "evaluations": out.evaluations,
             "distinct_nontrivial": out.classes.len(),
-            "rule": "twin functions generated from the same tokens with and without #[trace]: 16 sync shapes (value, name=, short_name, literal/format/escaped properties, early return, ?, panic, &mut mutation, by-value move, borrowed return, generic + where, locals with Drop, nested annotated call, unit, impl Trait return), 5 methods (&self, &mut self, self, properties over self fields, async &self), 11 async shapes (incl. enter_on_poll, ?, panic, early return, moves, &mut borrow, generic, nested), async_trait impl (in_span and enter_on_poll) and native async-in-trait; x arguments {0,1,2} x pending polls {0,1,2} x {under a root, inside a local span, no local parent, local parent set anew around every poll (async twins)}; distinct_nontrivial counts distinct (function, local parent?, outcome kind) classes",
+            "rule": "twin functions generated from the same tokens with and without #[trace]: 16 sync shapes (value, name=, short_name, literal/format/escaped properties, early return, ?, panic, &mut mutation, by-value move, borrowed return, generic + where, locals with Drop, nested annotated call, unit, impl Trait return), 5 methods (&self, &mut self, self, properties over self fields, async &self), 11 async shapes (incl. enter_on_poll, ?, panic, early return, moves, &mut borrow, generic, nested), async_trait impl (in_span and enter_on_poll), native async-in-trait, 4 plain functions returning a boxed future (Box::pin(async { .. }) and Box::pin(async move { .. }) after other statements, a lone Box::pin(async move { .. }), Box::pin(ready(..)); two of them also with the returned future leaked); x arguments {0,1,2} x pending polls {0,1,2} x {under a root, inside a local span, no local parent, local parent set anew around every poll (async twins)}; distinct_nontrivial counts distinct (function, local parent?, outcome kind) classes",
             "samples": [cases().iter().map(|c| c.id.clone()).step_by(17).collect::<Vec<_>>()],
             "exhaustive": true,
             "violation_list": out.violations,
